@@ -51,6 +51,9 @@ type interpreter struct {
 	initDirect         bool
 	mutexes            map[*value]*mutexState
 	atomics            map[*value]*atomicClock
+	unsafePkgs         map[*ssa.Package]bool
+	elemOf             map[*value]elemRef
+	addrs              map[*value]*Term
 }
 
 type deferred struct {
@@ -292,7 +295,13 @@ func visitInstr(fr *frame, instr ssa.Instruction) continuation {
 		idx := fr.get(instr.Index)
 		switch x := x.(type) {
 		case []value:
-			fr.env[instr] = i.indexAddr(x, idx)
+			pv := i.indexAddr(x, idx)
+			if rp, ok := pv.(*value); ok && len(x) > 0 {
+				if k, isInt := idx.(int); isInt {
+					i.noteElem(fr, rp, x, k)
+				}
+			}
+			fr.env[instr] = pv
 		case *value: // *array
 			if x == nil {
 				panic(runtimeError("invalid memory address or nil pointer dereference"))
